@@ -27,7 +27,7 @@ Torus(np, dims, off, d) ==
 
 MCSystems ==
   [k \in {"n1d1", "n1d2", "c2d1", "c2d2", "c3d1", "c3d2", "c4d1", "k4d1", "c4d2", "k4d2",
-          "a2c1d2", "a2c2d1", "a2c2d2", "a2c3d2", "a2c4d2", "a2k4d2", "a2c2d3", "a2k4d3", "c8d3", "a3c2d2"} |->
+          "a2c1d2", "a2c2d1", "a2c2d2", "a2c3d2", "a2c4d2", "a2k4d2", "a2c2d3", "a2k4d3", "c8d3", "c8d2", "a3c2d2"} |->
      CASE k = "n1d1" -> Torus(1, <<1, 1, 1>>, <<0>>, 1)
        [] k = "n1d2" -> Torus(1, <<1, 1, 1>>, <<0>>, 2)
        [] k = "c2d1" -> Torus(1, <<2, 1, 1>>, <<0>>, 1)
@@ -47,6 +47,7 @@ MCSystems ==
        [] k = "a2c2d3" -> Torus(2, <<2, 1, 1>>, <<0, 1>>, 3)
        [] k = "a2k4d3" -> Torus(2, <<2, 2, 1>>, <<0, 0>>, 3)
        [] k = "c8d3" -> Torus(1, <<2, 2, 2>>, <<0>>, 3)
+       [] k = "c8d2" -> Torus(1, <<2, 2, 2>>, <<5>>, 2)
        [] k = "a3c2d2" -> Torus(3, <<2, 1, 1>>, <<0, 1, 0>>, 2)]
 
 (* ---- input spaces ------------------------------------------------------------ *)
@@ -89,11 +90,19 @@ CasesExhaustive(z) ==
 
 (* complete by linearity: basis + projected basis + dense arrays, every system *)
 LinSystems == DOMAIN MCSystems
+(* levels: a round divides by ns twice and by 2; a transcription that does not reach a     *)
+(* fixed point (variant "pinned", even multiplicity) multiplies the denominator by 2 ns^2  *)
+(* per round, and Idempotent runs the routine twice: keep within TLC's 32-bit integers     *)
+LevelsOf(k) == IF MCSystems[k].ns <= 2 THEN 1..3 ELSE IF MCSystems[k].ns <= 4 THEN 1..2 ELSE {1}
+(* big systems (more than 300 array positions): every 5th basis vector; their complete      *)
+(* bases are covered by the 2-D versions of the same systems (the routines treat the        *)
+(* component pairs {(k,l), (l,k)} independently of one another)                            *)
+BasisOf(M) == IF M <= 300 THEN Basis(M) ELSE {Unit(M, p, 1) : p \in {q \in 1..M : q % 5 = 1}}
 CasesLinearOf(k) ==
-  LET bf == Basis(MSize(k, FALSE)) \cup Dense(MSize(k, FALSE))
-      bc == Basis(MSize(k, TRUE)) \cup Dense(MSize(k, TRUE))
-  IN FullCases(k, bf, 1..2) \cup FullSymCases(k, bf, {1, 3})
-     \cup CompactCases(k, bc, 1..3) \cup CompactSymCases(k, bc, {1, 3})
+  LET bf == BasisOf(MSize(k, FALSE)) \cup Dense(MSize(k, FALSE))
+      bc == BasisOf(MSize(k, TRUE)) \cup Dense(MSize(k, TRUE))
+  IN FullCases(k, bf, LevelsOf(k) \cap (1..2)) \cup FullSymCases(k, bf, {1, 3})
+     \cup CompactCases(k, bc, LevelsOf(k)) \cup CompactSymCases(k, bc, {1, 3})
      \cup PeriodicFullCases(k, bc, {1})
 CasesLinear(z) == UNION {CasesLinearOf(k) : k \in LinSystems}
 SmallLin == {"n1d1", "c2d2", "c3d2", "k4d2", "a2c2d2", "a2c3d2", "a2c2d3", "a3c2d2"}
